@@ -558,7 +558,11 @@ void CombinatoryProcess::formatExpression(std::ostream &stream, size_t indentati
 						HCL_ASSERT_HINT(false, "UNHANDLED_REWIRE_OP");
 				}
 			} else {
-				if (context == VHDLDataType::STD_LOGIC_VECTOR && mustCastToSLV)
+				// The operand of a type conversion must have a type that is determinable without context, which a concatenation of literals has not: qualify it.
+				bool qualifyConcatenation = context == VHDLDataType::STD_LOGIC_VECTOR && mustCastToSLV && op.size() > 1;
+				if (qualifyConcatenation)
+					stream << "STD_LOGIC_VECTOR(UNSIGNED'(";
+				else if (context == VHDLDataType::STD_LOGIC_VECTOR && mustCastToSLV)
 					stream << "STD_LOGIC_VECTOR(";
 				else if (op.size() > 1 )
 					stream << "("; // Must not cast since concatenation
@@ -613,7 +617,9 @@ void CombinatoryProcess::formatExpression(std::ostream &stream, size_t indentati
 					}
 				}
 
-				if (op.size() > 1)
+				if (qualifyConcatenation)
+					stream << "))";
+				else if (op.size() > 1)
 					stream << ')';
 				else
 					if (context == VHDLDataType::STD_LOGIC_VECTOR)
